@@ -27,13 +27,13 @@ Theorem reply_owned : forall lookup d,
     (forall lk now m, In m (snd (fire_timers lk now d)) -> owned_reply d (fst (fire_timers lk now d)) m) /\
     (forall lk sid m, In m (snd (fst (dealer_remove_session lk d sid))) ->
         owned_reply d (fst (fst (dealer_remove_session lk d sid))) m) /\
-    (* YIELD: a final RESULT consumes the call unless the caller is still sending chunks *)
+    (* YIELD: a final RESULT consumes the call (also while the caller is still sending chunks) *)
     (forall callee req opts args kw m, In m (snd (sync_yield d callee req opts args kw)) ->
         forall cid fin, reply_of m = Some (cid, fin) ->
           cget (d_calls d) cid = Some (fst cid) /\
           exists inv, cget (d_invs d) (callee, req) = Some inv /\ inv_call inv = cid /\
                       fin = negb (opt_bool opts "progress") /\
-                      (fin = true -> inv_inprogress inv = false ->
+                      (fin = true ->
                        cget (d_calls (fst (sync_yield d callee req opts args kw))) cid = None)) /\
     (* CALL: only refusals of the CALL being processed; every refusal leaves that call unrecorded
        (a refused further chunk ends the pending call; a refused first chunk changes no call table) *)
@@ -115,7 +115,7 @@ Qed.
 (** the owner's final YIELD *)
 Theorem prompt_yield_final : forall lookup d callee req opts args kw inv,
     dealer_wf lookup d -> cget (d_invs d) (callee, req) = Some inv ->
-    opt_bool opts "progress" = false -> inv_inprogress inv = false ->
+    opt_bool opts "progress" = false ->
     let cid := inv_call inv in
     exists d', sync_yield d callee req opts args kw = (d', [(fst cid, RResult (snd cid) [] args kw)]) /\
                gone d' cid (callee, req).
@@ -132,7 +132,7 @@ Proof. exact prompt_error_proof. Qed.
 Print Assumptions prompt_error.
 
 Example prompt_answer_ex :
-    (exists inv, cget (d_invs d3) (11, 1) = Some inv /\ inv_inprogress inv = false /\ inv_call inv = (10, 7)) /\
+    (exists inv, cget (d_invs d3) (11, 1) = Some inv /\ inv_call inv = (10, 7)) /\
     snd (sync_yield d3 11 1 [] [vnat 1] []) = [(10, RResult 7 [] [vnat 1] [])] /\
     gone (fst (sync_yield d3 11 1 [] [vnat 1] [])) (10, 7) (11, 1).
 Proof. split; [eexists|]; vm_compute; repeat split; reflexivity. Qed.
@@ -253,14 +253,45 @@ Theorem calls_grow_only_by_call : forall lookup d,
 Proof. exact calls_grow_only_by_call_proof. Qed.
 Print Assumptions calls_grow_only_by_call.
 
-(** ... so, for any history whose steps satisfy the per-step facts ([step_ok]:
-    own / final / add / once — what [reply_owned] and [calls_grow_only_by_call]
-    establish for the dealer functions, with the one documented exception of a
-    final YIELD while the caller is still sending chunks): after a final reply
-    for [cid], a later step sends another reply for [cid] only if a CALL [cid]
-    was issued in between.  This is the per-step form lifted to histories for
-    an abstract labelled transition system; it is not yet instantiated to
-    [Realm.run] (a realm step composes several dealer functions). *)
+(** ... so, for every history of dealer function applications, each from a
+    well-formed state ([dealer_fn_step]: cancel, sync_yield, sync_error,
+    fire_timers, dealer_remove_session, register, unregister, call): after the
+    final reply for [cid], a later step sends another reply for [cid] only if a
+    CALL [cid] was processed in between (the step's label is [Some cid]); and
+    within one function's output nothing for [cid] follows its final reply.
+    No exclusion is needed any more (a final YIELD always ends the call).
+    Not yet instantiated to [Realm.run], one step of which composes several
+    dealer functions. *)
+Theorem dealer_reply_unique : forall s0 pre t1 mid t2 post cid m1 m2,
+    chained dealer (option callid) s0 (pre ++ t1 :: mid ++ t2 :: post) ->
+    Forall dealer_fn_step (pre ++ t1 :: mid ++ t2 :: post) ->
+    In m1 (outp _ _ t1) -> reply_of m1 = Some (cid, true) ->
+    In m2 (outp _ _ t2) -> replies_to cid m2 ->
+    (forall t, In t (mid ++ [t2]) -> lab _ _ t <> Some cid) -> False.
+Proof. exact dealer_reply_unique_proof. Qed.
+Print Assumptions dealer_reply_unique.
+
+Theorem dealer_reply_once : forall t, dealer_fn_step t ->
+    forall o1 m o2 cid, outp _ _ t = o1 ++ m :: o2 -> reply_of m = Some (cid, true) ->
+      forall m', In m' o2 -> ~ replies_to cid m'.
+Proof. exact dealer_reply_once_proof. Qed.
+Print Assumptions dealer_reply_once.
+
+(** each dealer function application satisfies the four per-step facts *)
+Theorem dealer_fn_step_admissible : forall t, dealer_fn_step t ->
+    step_ok dealer (option callid) drec dis_call t.
+Proof. exact dealer_fn_step_ok. Qed.
+Print Assumptions dealer_fn_step_admissible.
+
+Example dealer_reply_unique_history_ex :
+    chained dealer (option callid) d3 ([] ++ hx1 :: [hx2] ++ hx3 :: []) /\
+    Forall dealer_fn_step ([] ++ hx1 :: [hx2] ++ hx3 :: []) /\
+    (exists m1, In m1 (outp _ _ hx1) /\ reply_of m1 = Some ((10, 7), true)) /\
+    (exists m2, In m2 (outp _ _ hx3) /\ replies_to (10, 7) m2) /\
+    lab _ _ hx2 = Some (10, 7).
+Proof. exact dealer_reply_unique_ex. Qed.
+
+(** the combinatorial core, for any labelled transition system *)
 Theorem reply_unique_partial : forall (S L : Type) (rec : S -> callid -> Prop) (is_call : L -> callid -> Prop)
       s0 pre t1 mid t2 post cid m1 m2,
     chained S L s0 (pre ++ t1 :: mid ++ t2 :: post) ->
